@@ -47,6 +47,7 @@ CONSTANTS Configs,     \* config name -> ClientConfig.Auth: sequence of [m, retr
           FixO1, FixRetry, FixRetryList,
           LongNames, LongPre, LongItems, LongMax,   \* configurations run against a different alphabet / bound
           FocusNames, FocusPre, FocusItems, FocusMax,   \* a second such group (deeper scripts over a reduced alphabet)
+          FocusDeepNames, FocusDeepMax, FocusDeepItems, \* members of the focus group with a larger bound and a smaller alphabet
           GridCfgNames,\* configurations run against the Go server model (the others: scripted server)
           Servers,     \* Go server configurations: name -> [algs, stages]; stages: sequence of
                        \*   [pw (accepted password, "" = no callback), kbd ("none" | "accept" | "reject"),
@@ -209,8 +210,10 @@ Resolve(tpl, req) ==
                                    [] OTHER -> DSS]
 ResolveAll(pkts, req) == [j \in 1..Len(pkts) |-> Resolve(pkts[j], req)]
 
-MaxFor   == IF cn \in LongNames THEN LongMax ELSE IF cn \in FocusNames THEN FocusMax ELSE MaxScript
-ItemsFor == IF cn \in LongNames THEN LongItems ELSE IF cn \in FocusNames THEN FocusItems ELSE Items
+MaxFor   == IF cn \in LongNames THEN LongMax ELSE IF cn \in FocusDeepNames THEN FocusDeepMax
+            ELSE IF cn \in FocusNames THEN FocusMax ELSE MaxScript
+ItemsFor == IF cn \in LongNames THEN LongItems ELSE IF cn \in FocusDeepNames THEN FocusDeepItems
+            ELSE IF cn \in FocusNames THEN FocusItems ELSE Items
 PreFor   == IF cn \in LongNames THEN LongPre ELSE IF cn \in FocusNames THEN FocusPre ELSE Pre
 
 React(e) ==
